@@ -51,8 +51,9 @@ PROPS = {
             'expect': ['gen_quantity:trait Quantity::eq', 'gen_quantity:trait Quantity::partial_cmp', 'gen_quantity:trait Quantity::add',
                        'gen_quantity:trait Quantity::sub', 'gen_quantity:trait Quantity::div',
                        'gen_quantity:lemma_C10_equal_only_if_same_unit_and_amount', 'gen_quantity:lemma_C10_different_units_unordered']},
-    'C14': {'level': 'proof', 'quick': ['kani_q_f64:conv'], 'thorough': ['kani_q_dec:conv'],
-            'expect': ['kani_q_f64:conv::k_conv_select_n3', 'kani_q_f64:conv::k_conv_temperature_total', 'kani_q_f64:conv::k_conv_dataflow']},
+    'C14': {'level': 'proof', 'quick': ['kani_q_f64:conv', 'c14_q_f64', 'c14_q_dec'], 'thorough': ['kani_q_dec:conv'],
+            'expect': ['kani_q_f64:conv::k_conv_select_n3', 'kani_q_f64:conv::k_conv_temperature_total', 'kani_q_f64:conv::k_conv_dataflow', 'c14_q_f64:lemma_C14_row_Kelvin_to_Degree_Celsius', 'c14_q_dec:lemma_C14_inverse_Degree_Celsius_Kelvin',
+                       'c14_q_f64:lemma_C14_compose_Kelvin_Degree_Celsius_Degree_Fahrenheit']},
     'C16': {'level': 'proof', 'quick': ['kani_q_f64:si', 'kani_q_f64:si2'],
             'expect': ['kani_q_f64:si::k_si_from_exp_all', 'kani_q_f64:si::k_si_iter', 'kani_q_f64:si::k_si_row_KILO']},
     'C18': {'level': 'proof', 'quick': ['gen_hasref', 'gen_quantity', 'types_q_f64_ref', 'types_q_f64_noref', 'kani_q_f64:total', 'kani_q_f64:totald',
